@@ -13,6 +13,8 @@ import (
 	"fmt"
 	"os"
 	"path/filepath"
+	"runtime/debug"
+	"runtime/pprof"
 	"sort"
 	"strconv"
 	"strings"
@@ -27,12 +29,15 @@ const (
 )
 
 func main() {
+	debug.SetGCPercent(800)
 	if len(os.Args) < 2 {
 		usage()
 	}
 	switch os.Args[1] {
 	case "check":
-		os.Exit(cmdCheck(os.Args[2:]))
+		code := cmdCheck(os.Args[2:])
+		pprof.StopCPUProfile()
+		os.Exit(code)
 	case "replay":
 		os.Exit(cmdReplay(os.Args[2:]))
 	case "list":
@@ -143,6 +148,7 @@ func cmdCheck(args []string) int {
 	noReplay := fs.Bool("no-replay", false, "skip native replay (debugging only; never used by registered commands)")
 	noEvidence := fs.Bool("no-evidence", false, "do not write the evidence file")
 	tracePath := fs.Bool("trace", false, "trace interpreted instructions (debugging)")
+	cpuprof := fs.String("cpuprofile", "", "write a CPU profile (debugging)")
 	var id string
 	if len(args) > 0 && !strings.HasPrefix(args[0], "-") {
 		id = args[0]
@@ -165,6 +171,14 @@ func cmdCheck(args []string) int {
 	prop, err := loadProp(id)
 	if err != nil {
 		fatal(err)
+	}
+	if *cpuprof != "" {
+		f, err := os.Create(*cpuprof)
+		if err != nil {
+			fatal(err)
+		}
+		pprof.StartCPUProfile(f)
+		defer pprof.StopCPUProfile()
 	}
 	start := time.Now()
 	run := &checkRun{prop: prop, tier: *tier, seed: seed, only: *only, workers: *workers, verbose: *verbose,
